@@ -307,6 +307,11 @@ def join_vals(a: Optional[Val], b: Optional[Val]) -> Optional[Val]:
         return a
     if a is b:
         return a
+    # "optional" values: None on one path (not computed yet / absent) and a structured value on the other.  None cannot be
+    # subscripted or called, so whatever is done with the joined value later is done with the structured one.
+    for x_, y_ in ((a, b), (b, a)):
+        if x_.has_const() and x_.const is None and not (y_.has_const() and y_.const is None) and (y_.items is not None or y_.obj is not None):
+            return y_.copy(const=NOCONST, tags=y_.tags | {"optional"}, deps=y_.deps | x_.deps, pdeps=y_.pdeps | x_.pdeps)
     # at a merge a bare number can stand for a quantity of any dimension (x = 0 / x = 1 in one branch)
     ad = ANY if (a.is_number_const() and dim_known(dim_collapse(b.dim))) else a.dim
     bd = ANY if (b.is_number_const() and dim_known(dim_collapse(a.dim))) else b.dim
